@@ -104,10 +104,10 @@ def main():
                 shutil.rmtree(SCRATCH, ignore_errors=True)
     res['caught_by'] = sorted(p for p, r in res['checks'].items() if r['rc'] == 1)
     res['finished'] = time.strftime('%Y-%m-%dT%H:%M:%SZ', time.gmtime())
-    if not props:
-        json.dump(res, open(os.path.join(d, 'result.json'), 'w'), indent=1)
-    else:
-        json.dump(res, open(os.path.join(d, 'result.partial.json'), 'w'), indent=1)
+    res['checks_run'] = props or 'all'
+    rc_, head = sh('git -C /verif rev-parse --short HEAD')
+    res['verif_commit'] = head.strip()
+    json.dump(res, open(os.path.join(d, 'result.json'), 'w'), indent=1)
     print('caught by:', res['caught_by'])
     rc, out = sh('git -C /repo status --porcelain')
     print('repo clean' if not out.strip() else 'REPO NOT CLEAN: ' + out)
